@@ -42,3 +42,10 @@ def reject_section(section):
         del RAISED[:-4]
         raise e
     return section
+
+
+def lower_key(text):
+    """A key type reachable by dotted name: ASCII identifier characters, lower-cased."""
+    if not text or not all((c.isalnum() and ord(c) < 128) or c == "_" for c in text) or text[0].isdigit():
+        raise ValueError("not a lower_key: %r" % (text,))
+    return text.lower()
